@@ -163,6 +163,8 @@ struct Fut {
 struct Info {
     futs: Vec<Fut>,
     used: std::collections::HashSet<usize>,
+    /// listener ids accepted by listen_on and not yet removed
+    live: Vec<usize>,
     nops: usize,
 }
 type Src<'a> = &'a mut dyn FnMut(&Info) -> Option<Value>;
@@ -347,6 +349,12 @@ where
                                          after[3][1] - before[3][1] + after[4][1] - before[4][1] + after[5][1] - before[5][1]]);
                     ev["polled"] = delta(&before, &after, 6);
                     // bookkeeping for the op source
+                    if ev["e"] == "listen" && ev["res"] == "ok" {
+                        info.live.push(id);
+                    }
+                    if ev["e"] == "remove" && ev["res"] == true {
+                        info.live.retain(|x| *x != id);
+                    }
                     if ev["e"] == "dial" && ev["res"] == "ok" {
                         let side = if after[2][0] > before[2][0] { 0 } else { 1 };
                         info.futs.push(Fut { up: false, j: ev["j"].as_u64().unwrap_or(0) as usize, side, idx: before[2][side], fin: false, gone: false });
@@ -557,7 +565,7 @@ fn run_random(out: &mut Out, rng: &mut rand::rngs::StdRng) {
         let open: Vec<&Fut> = info.futs.iter().filter(|f| !f.gone).collect();
         Some(match rng.gen_range(0..100) {
             0..=11 => json!({"a": "listen", "id": (0..NIDS).find(|i| !info.used.contains(i)).unwrap_or(id), "addr": addr}),
-            12..=17 => json!({"a": "remove", "id": id}),
+            12..=17 => json!({"a": "remove", "id": if !info.live.is_empty() && rng.gen_bool(0.7) { info.live[rng.gen_range(0..info.live.len())] } else { id }}),
             18..=32 => json!({"a": "dial", "addr": addr}),
             33..=50 => json!({"a": "inj", "s": s, "k": (["newaddr", "expired", "incoming", "incoming", "incoming", "closed", "closederr", "error"][rng.gen_range(0..8)]), "id": id, "addr": addr, "addr2": rng.gen_range(0..NADDR)}),
             51..=68 => json!({"a": "poll"}),
@@ -651,7 +659,7 @@ pub fn main(a: &vcommon::Args) {
                 run_fixed(&mut out, &s);
             }
             for incoming in [false, true] {
-                for (to, wait, inner) in [(40u64, 5u64, 0u8), (40, 5, 1), (40, 5, 2), (15, 40, 0), (15, 40, 1), (15, 40, 2), (0, 3, 0), (0, 3, 1)] {
+                for (to, wait, inner) in [(40u64, 5u64, 0u8), (40, 5, 1), (40, 5, 2), (60, 35, 0), (60, 35, 1), (15, 40, 0), (15, 40, 1), (15, 40, 2), (0, 3, 0), (0, 3, 1)] {
                     timeout_probe(&mut out, to, wait, inner, incoming);
                 }
             }
